@@ -43,14 +43,14 @@ Lemma new_in_req i st dix six o :
   t_shallow i = true -> compare_status i = inr (st, dix, six) -> In o (c_new st) -> In o (t_req i).
 Proof.
   intros Hs. unfold compare_status.
-  destruct (status_ix (t_parse i) (t_dst i) (status_cache i) (t_dix i) (t_shallow i) (t_req i))
+  destruct (status_ix (t_dnoop i) (t_parse i) (t_dst i) (status_cache i) (t_dix i) (t_shallow i) (t_req i))
     as [k|[[dex dmiss] dix']] eqn:ED; [discriminate|].
   destruct dmiss as [|m0 mr].
   - intros H; inversion H; subst; simpl. intros [].
-  - destruct (status_ix (t_parse i) (t_src i) (t_src i) (t_six i) (t_shallow i) (t_req i))
+  - destruct (status_ix (t_snoop i) (t_parse i) (t_src i) (t_src i) (t_six i) (t_shallow i) (t_req i))
       as [k|[[sex smiss] six']] eqn:ES; [discriminate|].
     intros H; inversion H; subst; simpl. intros Ho. apply diff_In in Ho. destruct Ho as [Ho _].
-    destruct (status_ix_spec _ _ _ _ _ _ _ _ _ ES) as [h [Cs [Scov _]]].
+    destruct (status_ix_spec _ _ _ _ _ _ _ _ _ _ ES) as [h [Cs [Scov _]]].
     destruct (collect_spec _ _ _ _ _ Cs) as [_ [B _]].
     destruct (B o (proj1 (Scov o) (or_introl Ho))) as [H1|[H1 _]]; auto. congruence.
 Qed.
@@ -94,7 +94,7 @@ Proof.
   - destruct (add_failed i (d_files r) ++ d_failed r); simpl; intros H;
       apply in_app_or in H; destruct H as [H|H].
     + apply in_app_or in H. destruct H as [H|H]; [eapply dir_loop_part_written; eauto|eauto].
-    + apply in_map_iff in H. destruct H as [p [E _]]. discriminate.
+    + destruct (t_dnoop i); [destruct H|]. apply in_map_iff in H. destruct H as [p [E _]]. discriminate.
     + apply in_app_or in H. destruct H as [H|H]; [eapply dir_loop_part_written; eauto|eauto].
     + destruct H as [H|[]]. discriminate.
   - intros H. eapply dir_loop_part_written; eauto.
